@@ -12,9 +12,9 @@ CLAIMED = {
         note="Partial: CPython's string hashing, numpy's generator and process-global state (lru_cache, keys added to user codon tables, marks on shared specification objects) cannot be exhibited by the Gallina model; that half is decided by differential runs only. Trusted: Coq kernel, the static scan (AST of the two files), subprocess launcher.",
         technique="Coq proof (permutation invariance of every set-consuming operation) + static audit of set-iteration sites + differential runs across hash seeds and process histories", design="6/C05"),
     "C07": dict(
-        text="Theorems (Coq): the synonymous-codon mutation space of EnforceTranslation (both strands, every generated genetic table without dual-use stop codons, every start-codon policy) contains exactly the sequences whose coding region translates to the wanted protein / whose first codon obeys the policy; the MaximizeCAI score is minus a sum of independent per-codon gaps and is 0 exactly when every codon is a most-frequent synonym. Together with C04 (exact space), C12/C15 (candidates never leave the space), C09 (codon-aligned localization is score-faithful), C06 (local exhaustive search exactly optimal) and C03 these give 'same protein, per-codon optimum'. The end-to-end statement (optimize() reaches it, outside untouched, HarmonizeRCA variant, named and user tables, both strands, offsets) is decided by the differential run against an independent per-codon table lookup: partial.",
-        note="Partial: no single end-to-end Coq theorem instantiating the abstract solver with the built-in classes; named codon tables are the sandbox shim's; log/ratio floats compared with 1e-9 tolerance.",
-        technique="Coq proof (restriction meaning for EnforceTranslation; per-codon decomposition of CAI) + vm_compute correspondence of the classes + end-to-end oracle on the implementation", design="6/C07"),
+        text="Theorems (Coq): the synonymous-codon mutation space of EnforceTranslation (both strands, every generated genetic table without dual-use stop codons, every start-codon policy) contains exactly the sequences whose coding region translates to the wanted protein / whose first codon obeys the policy; the MaximizeCAI score is minus a sum of independent per-codon gaps and is 0 exactly when every codon is a most-frequent synonym. Together with C04 (exact space), C12/C15 (candidates never leave the space), C09 (codon-aligned localization is score-faithful), C06 (local exhaustive search exactly optimal) and C03 these give 'same protein, per-codon optimum'. End to end: (a) for ANY separable objective (score = sum of per-unit gaps, local space of each sub-optimal unit searched exhaustively and containing a gap-closing variant) optimize() ends with every gap closed and the score at its declared best, whatever the constraints skipped as enforced; (b) instantiated for the modelled MaximizeCAI on the forward strand: optimize() ends with EVERY codon a most-frequent synonym, under the mutation-space hypothesis block_searchable (theorem named _partial: that hypothesis is not re-proved for the concrete EnforceTranslation space). The reverse strand, HarmonizeRCA, named and user tables, offsets and 'outside untouched' are decided by the differential run against an independent per-codon table lookup: partial.",
+        note="Partial: the end-to-end theorem assumes the local-space hypothesis (discharged informally by the space theorem + C04), forward strand and MaximizeCAI only; named codon tables are the sandbox shim's; log/ratio floats compared with 1e-9 tolerance.",
+        technique="Coq proof (restriction meaning for EnforceTranslation; per-codon decomposition of CAI; induction over the reported locations of optimize_objective on top of the exact optimality of the local exhaustive search) + vm_compute correspondence of the classes + end-to-end oracle on the implementation", design="6/C07"),
     "C04": dict(
         text="Theorems (Coq): the space built by from_optimization_problem's merge procedure is EXACT - a sequence of the right length is a member iff it satisfies every restriction choice (merge_with keeps exactly the variants compatible with ALL overlapping choices, extract_varying_region is exact), the space is a well-formed partition, 'unsolvable' (a choice left without variant) iff no sequence satisfies all restrictions, constrain_sequence moves the initial sequence into the space. The per-class meaning of restrict_nucleotides (AvoidChanges, EnforceTranslation both strands/all start-codon policies, EnforceSequence IUPAC, EnforceChoice, EnforceChanges, AvoidRareCodons) is modelled and tied by correspondence, and decided by brute force over all 4^L sequences (membership vs evaluate().passes) - that half is not a Coq theorem.",
         note="Trusted: Coq kernel; hand model of MutationSpace/MutationChoice tied by correspondence; start-codon policy is read as part of the documented predicate of EnforceTranslation (the space is stricter than evaluate(), DESIGN section 7).",
@@ -44,10 +44,10 @@ CLAIMED = {
         note=SOLVER_NOTE, technique="Coq proof (final-check dominance; invariant 'sequence stays in the mutation space' excludes the error sites) + trace-exact correspondence with recorded runs", design="6/C01"),
     "C02": dict(
         text="Theorems (Coq): optimize, optimize_objective and the direct exhaustive/random optimisers keep every constraint satisfied (full re-evaluation), for every kind of constraint whose localization is sound (the C08 law; constraints flagged enforced are covered by the mutation-space guarantee), every objective set, configuration and random stream. Model tied trace-exactly to the code; oracle: all_constraints_pass(autopass=False) before/after single and repeated calls on the implementation.",
-        note=SOLVER_NOTE + " The instantiation of the abstract soundness hypothesis by the built-in classes rests on the C08 theorems and on correspondence (re-initialisation of localized built-ins is content-stable).", technique="Coq proof (acceptance invariant over local searches + soundness transfer) + trace-exact correspondence", design="6/C02"),
+        note=SOLVER_NOTE + " For the modelled built-in classes with the C08 law the soundness hypothesis is itself a theorem (Proofs/Builtins.v: C02_builtin_constraints_are_sound, C02_builtin_optimize_keeps_every_constraint, instance with initialised specifications and unit boosts); for constraints the solver skips as enforced by nucleotide restrictions it is the mutation-space guarantee (C04), and for UniquifyAllKmers / HarmonizeRCA constraints it rests on correspondence.", technique="Coq proof (acceptance invariant over local searches + soundness transfer) + trace-exact correspondence", design="6/C02"),
     "C03": dict(
         text="Theorems (Coq): optimize never lowers the boost-weighted total (exact rationals), nor does a repeated call, for every objective kind with score-faithful localization (the C09 law), any boosts (zero boosts are excluded from local problems and contribute nothing), every configuration and random stream; local searches accept strict improvements only. Model tied trace-exactly to the code; oracle: objective_scores_sum before/after single and repeated optimize() on the implementation.",
-        note=SOLVER_NOTE + " Float rounding of the global sum is outside the theorem (improvements are far above 1e-13 for generated tables; compared with 1e-9 tolerance).", technique="Coq proof (local total difference = global total difference by the C09 law; strict-improvement acceptance) + trace-exact correspondence", design="6/C03"),
+        note=SOLVER_NOTE + " For the modelled built-in classes with the C09 law the faithfulness hypothesis is itself a theorem (Proofs/Builtins.v: C03_builtin_objectives_are_faithful, C03_builtin_optimize_never_lowers_the_total). Float rounding of the global sum is outside the theorem (improvements are far above 1e-13 for generated tables; compared with 1e-9 tolerance).", technique="Coq proof (local total difference = global total difference by the C09 law; strict-improvement acceptance) + trace-exact correspondence", design="6/C03"),
     "C06": dict(
         text="Theorems (Coq): resolve_constraints_by_exhaustive_search succeeds iff some variant of the mutation space is feasible (keeping the first one in enumeration order), otherwise NoSolutionError with the sequence restored, and draws nothing; optimize_by_exhaustive_search ends on a feasible variant whose weighted total is the maximum over all feasible variants, provided scores never exceed declared bests and boosts are non-negative. With C15 (all_variants = the whole product) this is completeness/optimality over the mutation space. Tied trace-exactly to the code; oracle: brute force over the product of the choices on spaces of 1..3000 variants (frozen spaces included).",
         note=SOLVER_NOTE, technique="Coq proof (loop invariant over the enumeration; weighted best-score bound for the early exit) + trace-exact correspondence + brute-force oracle", design="6/C06"),
@@ -55,12 +55,12 @@ CLAIMED = {
         text="Theorems (Coq): every sequence the solver ever assigns - top-level and every candidate of local exhaustive/random searches - has the original length and lies in the mutation space, for resolve_constraints, optimize and the direct searches, every specification kind, configuration and random stream; a failed exhaustive search restores its starting sequence. Hence an abort at ANY evaluation call leaves a usable problem. The model's evaluation/assignment trace is tied to the code trace-exactly; fault enumeration on the implementation raises at the k-th evaluate call and checks length, hard restrictions, sequence_before, re-evaluation and re-solve.",
         note=SOLVER_NOTE + " Exceptions are injected by wrapping evaluate from outside; a NoSolutionError thrown by a user specification itself would be caught by the solver and is out of scope.", technique="Coq proof (state invariant over the whole run) + trace-exact correspondence + fault enumeration on the implementation", design="6/C12"),
     "C08": dict(
-        text="Theorem (Coq): for every modelled built-in class except UniquifyAllKmers, AvoidHairpins and the pure objective HarmonizeRCA, every well-formed instance, every window W inside the sequence and every pair of sequences differing only inside W: if S passes before and S localized to W passes after, S passes after; if localization yields nothing the score is unchanged. The model's localized()/evaluate() are tied to the code by vm_compute correspondence on all 16 classes (including the three not proved), and a direct oracle runs the property on the implementation. Partial: UniquifyAllKmers and AvoidHairpins are decided by the differential run + oracle only.",
+        text="Theorem (Coq): for every modelled built-in class (AvoidHairpins included) except UniquifyAllKmers and the pure objective HarmonizeRCA, every well-formed instance, every window W inside the sequence and every pair of sequences differing only inside W: if S passes before and S localized to W passes after, S passes after; if localization yields nothing the score is unchanged. The model's localized()/evaluate() are tied to the code by vm_compute correspondence on all 16 classes (including the two not proved), and a direct oracle runs the property on the implementation. Partial: UniquifyAllKmers (and HarmonizeRCA used as a constraint) are decided by the differential run + oracle only.",
         note="Trusted: Coq kernel; hand model of evaluate/localized (Model/Specs.v) tied by correspondence; thresholds read as the decimals the user wrote (float caveat in DESIGN section 9); with_righthand=False variants are modelled but not claimed.",
         technique="Coq proof (window-locality lemmas, codon-window arithmetic) + vm_compute correspondence + direct oracle",
         design="6/C08"),
     "C09": dict(
-        text="Theorem (Coq): for every modelled built-in class other than UniquifyAllKmers (excluded by the property) and AvoidHairpins (not proved), every well-formed instance, window W and pair of sequences differing only inside W, the score difference of the localized specification equals that of the full one (exact rationals), and is zero when localization yields nothing. Tied to the code by correspondence on all classes; direct oracle on the implementation.",
+        text="Theorem (Coq): for every modelled built-in class other than UniquifyAllKmers (excluded by the property) - AvoidHairpins included -, every well-formed instance, window W and pair of sequences differing only inside W, the score difference of the localized specification equals that of the full one (exact rationals), and is zero when localization yields nothing. Tied to the code by correspondence on all classes; direct oracle on the implementation.",
         note="Trusted: as C08. Scores are exact rationals in the model; float sums compared within 1e-9 relative in the correspondence.",
         technique="Coq proof (range-splitting of counts and sums, codon-window arithmetic) + vm_compute correspondence + direct oracle",
         design="6/C09"),
